@@ -36,6 +36,7 @@ type variant struct {
 	maxQuick  int
 	unknown   uint64    // entry node has no address for this node (dial error)
 	again     []float32 // the caller searches once more with this query before it looks at the first answer
+	rejoin    uint64    // with `again`: between the two searches this node leaves the cluster and joins again (same id, same address)
 	wire      bool      // every remote call is a scheduling point before its request message is read (fakes.YieldBeforeCall)
 }
 
@@ -141,9 +142,15 @@ func build(v variant) *explore.Scenario {
 					res, err = c.Nodes[0].DS.SearchPartitions(ctx, pids, []float32{0}, v.k)
 				} else {
 					res, err = c.Nodes[0].DS.Search(ctx, []float32{0}, v.k)
-					if v.again != nil && err == nil {
+					if v.again != nil && err == nil && v.rejoin == 0 {
 						// an answer belongs to its caller: a later search must not change it
 						c.Nodes[0].DS.Search(ctx, v.again, v.k)
+					}
+					if v.again != nil && err == nil && v.rejoin != 0 {
+						// a member leaves and joins again: the cluster is as healthy as before, the next search must work
+						c.Nodes[0].Conn.RemoveNode(v.rejoin)
+						c.Nodes[0].Conn.AddNode(v.rejoin, world.Addr(v.rejoin))
+						res, err = c.Nodes[0].DS.Search(ctx, []float32{0}, v.k)
 					}
 				}
 				returned = true
@@ -314,6 +321,7 @@ func main() {
 		variant{name: "full-P2-two-searches-in-a-row", mode: "full", nodes: 2, placement: [][]uint64{{1}, {2}}, k: 3, again: []float32{10}, maxQuick: 1},
 		variant{name: "outer-P2-two-remote-nodes-wire", mode: "outer", nodes: 3, placement: [][]uint64{{2}, {3}}, k: 3, wire: true},
 		variant{name: "outer-P3-three-nodes-wire", mode: "outer", nodes: 3, placement: [][]uint64{{1}, {2}, {3}}, k: 4, wire: true, maxQuick: 1},
+		variant{name: "outer-P2-a-member-leaves-and-rejoins-between-two-searches", mode: "outer", nodes: 2, placement: [][]uint64{{1}, {2}}, k: 3, again: []float32{0}, rejoin: 2, maxQuick: 1},
 		variant{name: "full-P3-R2", mode: "full", nodes: 3, placement: [][]uint64{{1, 2}, {2, 3}, {3, 1}}, k: 4},
 	)
 	var scs []*explore.Scenario
